@@ -303,7 +303,7 @@ Theorem malformed_bench_is_positioned_error fname n st line k :
 Proof. unfold Reader.step. now intros ->. Qed.
 
 (** a unit line without a unit, or with a field that is not key=value, yields an error at its line *)
-Theorem malformed_unit_is_positioned_error fname n st :
+Theorem unit_without_unit_is_error fname n st :
   fst (step fname n st (bs "Unit")) = [RErr fname n EUnitMissing].
 Proof. reflexivity. Qed.
 
@@ -315,3 +315,49 @@ Theorem reader_total st fname labels content :
 Proof. destruct (read_file st fname labels content) as [[rs e] st']. eauto. Qed.
 
 End ReaderProofs.
+
+(** ** malformed unit lines: at least one error at the line, never a result *)
+Section UnitErrors.
+Variables is_space is_lower is_upper : N -> bool.
+Variable atoi : bytes -> option Z.
+Variable parse_float : bytes -> option b64.
+
+Lemma unit_fields_bad fname n unit tu fs : forall m f,
+  In f fs -> parse_unit_field f = UFBad ->
+  In (RErr fname n EUnitKV) (fst (Reader.unit_fields fname n unit tu fs m)).
+Proof.
+  induction fs as [|g fs IH]; intros m f Hin Hbad; [contradiction|].
+  cbn [Reader.unit_fields]. destruct Hin as [->|Hin].
+  - rewrite Hbad. destruct (Reader.unit_fields fname n unit tu fs m). now left.
+  - destruct (parse_unit_field g) as [|k v].
+    + specialize (IH m f Hin Hbad). destruct (Reader.unit_fields fname n unit tu fs m). now right.
+    + destruct (umap_find m tu k) as [have|].
+      * destruct (beq (u_value (up_meta have)) v); [eapply IH; eauto|].
+        specialize (IH m f Hin Hbad). destruct (Reader.unit_fields fname n unit tu fs m). now right.
+      * specialize (IH (m ++ [mkUmetap (mkUmeta tu k unit v) fname n]) f Hin Hbad).
+        destruct (Reader.unit_fields fname n unit tu fs (m ++ _)). now right.
+Qed.
+
+(** a unit line with no unit, or with an item that is not key=value (no '=', or
+    '=' first), yields an error positioned at that line; a unit line never
+    yields a result and never touches the configuration *)
+Theorem malformed_unit_is_positioned_error fname n st line fs :
+  Reader.classify is_space is_lower is_upper atoi parse_float line = LUnit fs ->
+  (fs = [] \/ exists f, In f (tl fs) /\ parse_unit_field f = UFBad) ->
+  let '(rs, st') := Reader.step is_space is_lower is_upper atoi parse_float fname n st line in
+  (exists k, In (RErr fname n k) rs) /\
+  Forall (fun r => match r with RRes _ => False | _ => True end) rs /\
+  Forall (fun r => rec_file r = fname /\ rec_line r = n) rs /\
+  rs_cfg st' = rs_cfg st.
+Proof.
+  intros Hc Hbad. unfold Reader.step. rewrite Hc.
+  destruct (Reader.unit_line is_space fname n fs (rs_units st)) as [rs m] eqn:E.
+  destruct (unit_line_facts is_space fname n fs (rs_units st) rs m E) as (H1 & H2 & _).
+  split; [|split; [exact H1|split; [exact H2|reflexivity]]].
+  unfold Reader.unit_line in E. destruct Hbad as [->|(f & Hin & Hf)].
+  - injection E as <- <-. exists EUnitMissing. now left.
+  - destruct fs as [|u fs]; [contradiction|]. cbn [tl] in Hin. exists EUnitKV.
+    pose proof (unit_fields_bad fname n u (snd (tidy is_space b64_one u)) fs (rs_units st) f Hin Hf) as H.
+    rewrite E in H. exact H.
+Qed.
+End UnitErrors.
